@@ -86,7 +86,10 @@ def retransmission(r):
 
 def element(r, hostile=True):
     """One stream element with a label."""
-    k = r.randrange(23 if hostile else 9)
+    k = r.randrange(24 if hostile else 9)
+    if k == 23:   # a checksum-valid frame with a body whose flags say "acknowledgement" (plus any other flag combination)
+        body = bytes(r.getrandbits(8) for _ in range(r.choice([4, 6, 9, 40])))
+        return "ack-flagged-data", raw_frame(0x01 | r.choice([0xC0, 0x40, 0x80, 0x00]) | (r.randrange(4) << 2) | (r.randrange(4) << 4), body)
     if k == 8 and not hostile or k == 20:
         return "retransmit", retransmission(r)
     if k == 21:   # a frame of a foreign type with valid header and body checksums
